@@ -230,7 +230,7 @@ def step (w : World) (ws : List String) : Option (World × String) :=
         | .error e => (w, encErr e)
         | .ok (d, fs, _) =>
           let imp := if s.dialect.fmt = Parser.gtf then Importer.gtf else Importer.gff
-          match update s (c.toCfg imp d) fs with
+          match updateRaw s (c.toCfg imp d) (Iter.featureLines lines).isEmpty fs with
           | .ok s' => ({ sess := some s' }, "ok")
           | .error e => ({ sess := none }, encErr e)))
   | ["bed12", id, block, thick, thin, nf, color] => do
